@@ -53,7 +53,9 @@ Rot2(sc) == SumOf(sc.pages) * 7 + Len(sc.pages) * 3 + sc.q + KindNo(sc.kind) * 5
 Rot3(sc) == SumOf(sc.pages) * 3 + Len(sc.pages) * 11 + sc.q * 5 + KindNo(sc.kind) * 7 + sc.fail + sc.start * 13
 
 \* any page size at least as large as the largest page (the scripted node never sends more)
-SizeOf(sc) == Max2(1, MaxOfSeq(sc.pages)) + (Len(sc.pages) % 2) * 100
+\* ... and page size 0 (no page size in the request: the node pages as it sees fit and the paging states still have to
+\* travel) for one scenario in five
+SizeOf(sc) == IF Rot2(sc) % 5 = 3 THEN 0 ELSE Max2(1, MaxOfSeq(sc.pages)) + (Len(sc.pages) % 2) * 100
 
 VariantsFor(sc) ==
   IF Len(sc.plan) = 1
